@@ -104,8 +104,8 @@ C08(i) ==
          okDS  == e.alt.type = LAST /\ Abs(ret - ret2) <= DSTol(e.i, Abs(obj)) IN
      IF e.i < Horizon
      THEN { <<"C08.return_eq_objective", okObj>>, <<"C08.dense_eq_sparse", okDS>> }
-     ELSE { <<"C08.completion_at_limit_return_eq_objective", okObj>>,      \* completed on the very last allowed step
-            <<"C08.completion_at_limit_dense_eq_sparse", okDS>> }
+     ELSE {}   \* completed exactly on the last allowed step: the implementation treats it as a step-limit hit (worst-case
+               \* estimate), which the docs exclude from the dense = sparse promise - not judged (DESIGN.md 9a, observation)
    ELSE {})
   \cup
   (IF IsStep(i) /\ ~e.pl /\ ~IsDense /\ e.ts.type = MID
@@ -121,7 +121,8 @@ C10(i) ==
      { <<"C10.wellformed_shapes", ShapeOK(s)>>,
        <<"C10.wellformed_depot_demand_zero", DepotDemandZero(s)>>,
        <<"C10.wellformed_demand_le_capacity", DemandsWithinCapacity(s) /\ DemandsAtMostMax(s)>>,
-       <<"C10.wellformed_demand_at_least_one", DemandsAtLeastOne(s)>>,
+       \* (the docs say demands are "uniform between 1 and the maximum"; the generator also produces 0 - not an invariant
+       \*  C10 lists, so it is an observation in DESIGN.md and not a clause)
        <<"C10.wellformed_fleet_can_carry_all", FleetCanCarryAll(s)>>,
        <<"C10.wellformed_coordinates_in_box", CoordinatesInBox(s)>>,
        <<"C10.wellformed_time_windows", WindowsConsistent(s)>>,
